@@ -35,6 +35,25 @@ def _cond_trace(F, fn, op):
     return rs
 
 
+def helper_zero_guard(F, fn, i):
+    """the positivity test may sit in a predicate method called in a dominating condition (`if self.raw_line_is_too_long()`)"""
+    def pred(rs):
+        for r in rs:
+            if r[0] != 'call':
+                continue
+            q = r[1] if r[1] in F.fn_bodies else (r[4].get('resolved') or '')
+            if q in F.fn_bodies and F.bodies[q]['mir']['locals'][0] == 'bool':
+                for blk in F.blocks(q):
+                    for st in blk['s']:
+                        if st[0] == 'assign' and st[2][0] == 'binop' and st[2][1] in ('Gt', 'Ne', 'Lt', 'Ge'):
+                            ops = st[2][2:4]
+                            if any(x[0] == 'param' and x[2] and x[2][-1] == 'max_line_length' for o in ops for x in F.trace(q, o)) and \
+                                    any('const' in o and str(o['const'].get('repr', '')).startswith(('0_', '1_')) for o in ops):
+                                return True
+        return False
+    return Ru.guarded_by(F, fn, i, pred) or Ru.guarded_by(F, fn, i, pred, want_true=False)
+
+
 def ingest_rule(F, res, ingest_fn):
     if not ingest_fn:
         res.anchor_missing('ingest function (fn(&mut StateMachine, &[u8]))')
@@ -167,6 +186,68 @@ def ingest_rule(F, res, ingest_fn):
                                 'the wrong bytes are removed from lines longer than the searched window', where=F.span_of_call(c))
                 else:
                     ok += 1
+    # ZERO-UNLIMITED: --max-line-length 0 means "never truncate". Every cut of the line at a position derived from config.max_line_length
+    # must therefore be dominated by a test that the limit is positive (`max_line_length > 0`, `!= 0`); an unconditional
+    # `line[..min(limit, len)]` empties the line when the limit is 0
+    nz = okz = 0
+    for fn in sorted(fns):
+        for i, c in F.calls(fn):
+            r = callee_of(c)
+            uses_limit = [a for a in c['args'] if any(x[0] in ('param', 'local') and x[2] and x[2][-1] == 'max_line_length' for x in F.trace(fn, a))]
+            if not uses_limit:
+                continue
+            if r.endswith(('::gt', '::ge', '::lt', '::le', '::eq', '::ne', '::cmp', '::partial_cmp')):
+                continue
+            nz += 1
+
+            def positive(rs):
+                return any(x[0] == 'binop' and x[1] in ('Gt', 'Ne', 'Lt', 'Ge', 'Eq', 'Le') for x in rs) and \
+                    any(x[0] in ('param', 'local') and x[2] and x[2][-1] == 'max_line_length' for x in rs) and \
+                    any(x[0] == 'const' and str(x[1]).startswith(('0_', '1_')) for x in rs)
+            if Ru.guarded_by(F, fn, i, positive) or Ru.guarded_by(F, fn, i, positive, want_true=False) or helper_zero_guard(F, fn, i):
+                okz += 1
+            else:
+                res.violate('INGEST', 'fn=%s;callee=%s;zero-unlimited' % (fn, r.split('::')[-1]), 'the line is cut at a position computed from max_line_length without first testing that the '
+                            'limit is positive: with --max-line-length 0 (documented as "no truncation") the line is emptied', where=F.span_of_call(c))
+    n += nz
+    ok += okz
+    # LIMIT-NOT-LOWERED: under side-by-side the effective max_line_length is recomputed from the wrap budget. Lines that are passed through are
+    # never wrapped, so the recomputed limit must not fall below what the user asked for: every value the function returns is the user's
+    # limit, a maximum that includes it, or 0 (no limit)
+    nl = okl = 0
+    for q in sorted(F.fn_bodies):
+        mir = F.bodies[q]['mir']
+        if not (q.endswith('::config_max_line_length') and mir['locals'][0] == 'usize'):
+            continue
+        lim = [nm[1]['l'] for nm in mir['names'] if nm[0] == 'max_line_length' and not nm[1]['p'] and 1 <= nm[1]['l'] <= mir['arg_count']]
+        if not lim:
+            continue
+        for bi, blk in enumerate(F.blocks(q)):
+            if blk['cleanup']:
+                continue
+            cands = [st[2] for st in blk['s'] if st[0] == 'assign' and st[1]['l'] == 0 and not st[1]['p']]
+            t = blk['t']
+            calls0 = t[0] == 'call' and t[1]['dest']['l'] == 0 and not t[1]['dest']['p']
+            for rv in cands:
+                nl += 1
+                o = rv[1] if rv[0] == 'use' else None
+                rs = F.trace(q, o, deep=True) if o is not None else []
+                lits = F.operand_literals(q, o) if o is not None else []
+                if any(r[0] == 'param' and r[1] in lim for r in rs) or (lits and all(v == ('int', 0) for v in lits)):
+                    okl += 1
+                else:
+                    res.violate('INGEST', 'fn=%s;limit-lowered' % q, 'the line-length limit used while wrapping no longer includes the configured --max-line-length: lines that are '
+                                'merely passed through (commit messages, program output) are cut although they are shorter than the limit the user set', where=mir['span']['at'])
+            if calls0:
+                nl += 1
+                rs = [x for a in t[1]['args'] for x in F.trace(q, a, deep=True)]
+                if any(r[0] == 'param' and r[1] in lim for r in rs):
+                    okl += 1
+                else:
+                    res.violate('INGEST', 'fn=%s;limit-lowered' % q, 'the line-length limit used while wrapping no longer includes the configured --max-line-length: lines that are '
+                                'merely passed through (commit messages, program output) are cut although they are shorter than the limit the user set', where=F.span_of_call(t[1]))
+    n += nl
+    ok += okl
     res.rule('C04.INGEST', n, 3, 'writes to raw_line / line inside the ingest functions %s' % sorted(f.split('::')[-1] for f in fns), discharged=ok, samples=samples)
 
 
